@@ -287,6 +287,14 @@ func varExprs(t *m.Type) []value {
 		if t.Sub.K != m.Any {
 			out = append(out, value{src: lit(t) + "+s", ty: t, pre: []string{"s:" + t.String()}, kind: "var-expr:literal-concat-var"})
 		}
+		if t.Sub.Composite() {
+			// a concatenation of literals one of which holds a composite variable
+			out = append(out,
+				value{src: lit(t) + "+[e]", ty: t, pre: []string{"e:" + t.Sub.String()}, kind: "var-expr:literal-concat-literal-with-variable"},
+				value{src: "[e]+" + lit(t), ty: t, pre: []string{"e:" + t.Sub.String()}, kind: "var-expr:literal-concat-literal-with-variable"},
+				value{src: "(" + lit(t) + "+[e])[:]", ty: t, pre: []string{"e:" + t.Sub.String()}, kind: "var-expr:literal-concat-literal-with-variable"},
+				value{src: "[e]*2", ty: t, pre: []string{"e:" + t.Sub.String()}, kind: "var-expr:repeat-literal-with-variable"})
+		}
 	}
 	out = append(out,
 		value{src: "ss[0]", ty: t, pre: []string{"ss:[]" + t.String()}, kind: "var-expr:element"},
